@@ -25,7 +25,8 @@ TDoc == /\ IsEvent("doc")
 TableMarkers(bs) == UNION {MarkersOf(bs[i]) : i \in {j \in 1..Len(bs) : bs[j].kind = "tb"}}
 Spurious(bs, c) == c.types = <<"table">> /\ SetOf(c.markers) \cap TableMarkers(bs) = {}
 AfterTable(bs, b) == \E i \in 2..Len(bs) : bs[i] = b /\ bs[i - 1].kind = "tb" /\ bs[i - 1].page = b.page
-LostAfterTable(bs, p) == "block" \in DOMAIN p /\ p.problem = "block lost: in no chunk" /\ AfterTable(bs, p.block)
+BlockOfMarker(bs, m) == bs[CHOOSE i \in 1..Len(bs) : m \in MarkersOf(bs[i])]
+LostAfterTable(bs, p) == "marker" \in DOMAIN p /\ p.problem = "content lost: marker in no chunk" /\ AfterTable(bs, BlockOfMarker(bs, p.marker))
 TDocKnown == /\ IsEvent("doc") /\ Rec[l].ok
              /\ LET bs == Blocks(Rec[l])
                     sp == KnownOpen("KF_C15_SPURIOUS_TABLE")  la == KnownOpen("KF_C15_LINE_AFTER_TABLE")
